@@ -540,6 +540,8 @@ def coverage_rules(ctx, F, with_docs=True):
         r7_market(ctx, F)
     c05.r8_atomic_arbitration(ctx, F, rule='C01-R9')
     c19.r5_worker_queue(ctx, F, rule='C01-R10', with_join=False)
+    with ctx.rule('C05-R9', 'split_and_push'):
+        c05.r9_empty_batch_is_shutdown_signal(ctx, F)
 
 
 def _docs(ctx):
@@ -561,6 +563,8 @@ def _docs(ctx):
     ctx.doc('C01-R8', 'visitor is called for every evaluated job with a path rebuilt from that job')
     ctx.doc('C01-R9', 'the visited set is only touched through single-call (atomic) insert-if-absent '
                       'arbitration, so no state is enqueued by two workers')
+    ctx.doc('C05-R9', 'an empty batch is the workers\' shutdown signal: a batch split off a queue is published only '
+                      'when non-empty (otherwise pending work is abandoned)')
     ctx.doc('C01-R10', 'worker-local job queues are (re)assigned only when empty; the on-demand worker appends '
                        'processed/new jobs back to its pending queue')
 
